@@ -72,3 +72,36 @@ def program_unit(mn, mode):
 for _mode in ("single_stage_pipeline", "five_stage_pipeline"):
     for _mn in MEMOPS + ("add", "beq", "jalr", "lui"):
         program_unit(_mn, _mode)
+
+
+def ecall_unit(code, mode):
+    @unit("C09/program-level/%s/ecall/a7=%d" % (mode, code), expect_reach=("retired",), bounded="strings of at most 6 bytes" if code == 4 else None)
+    def u():
+        """ecalls are not loads or stores: what the simulator itself reads for them (the bytes of a printed string) is
+        not counted"""
+        st, regs0 = havoc_state(mode)
+        st.register_file.registers[17] = UInt32(code)
+        if code == 4:
+            # a string of at most 6 bytes at a valid address: bytes arbitrary, a terminator within reach
+            a0 = sym_int("a0", LO, TOP - 8)
+            st.register_file.registers[10] = UInt32(a0)
+            n = sym_int("strlen", 0, 5)
+            st.memory.write_byte(a0 + n, UInt8(0), True)
+        st.memory = Counting(st.memory)
+        ins, _, _, _, _ = build("ecall")
+        pc = sym_int("pc", 0, IMEM_TOP - 4)
+        place(st, ins, pc)
+        sim = RiscvSimulation(state=st)
+        try:
+            for i in range(1 if mode == "single_stage_pipeline" else 5):
+                sim.step()
+        except InstructionExecutionException as e:
+            return
+        reach("retired")
+        check("an_ecall_makes_no_counted_data_access", st.memory.counted == 0)
+
+
+from fixedint import UInt8, UInt32
+for _mode in ("single_stage_pipeline", "five_stage_pipeline"):
+    for _code in (1, 4, 11, 93):
+        ecall_unit(_code, _mode)
